@@ -31,12 +31,15 @@ FUNCTIONS_ENCODED = [
     'yaql.language.specs.get_function_definition + conventions.CamelCaseConvention (published keyword names)',
     'yaql.standard_library.system.call_func', 'the payloads of the standard library functions called']
 BOUNDS = {
-    'quick': '60 definitions of the live registry (seeded choice, every module represented) + every definition with '
-             '*args/**kwargs/keyword-only/mid-signature hidden parameters; ints in [-1,3], strings of length <= 2, '
-             'booleans symbolic (concrete corpus values for regex/datetime/format payloads); <= 48 default-subset '
-             'spellings per definition; synthetic signatures with <= 2 positional parameters',
-    'thorough': 'every definition the corpus can fill (166 of 176 explicit definitions on the pinned tree); synthetic '
-                'signatures with <= 3 positional parameters, <= 4 arguments, <= 2 keywords'}
+    'quick': 'about 55 definitions of the live registry: every definition with *args/**kwargs/keyword-only/mid-signature '
+             'hidden parameters/>= 2 defaults, plus a seeded choice over all library modules; per definition <= 48 '
+             'default-subset spellings + all split points; scalar arguments: every tuple over ints [-1,3], the 8 strings '
+             '{"", a, blank, ab, a+blank, blank+a, aa, 2 blanks}, booleans (solver-selected, <= 300 tuples per definition, '
+             'later variables pinned); 3 definitions with genuinely symbolic ints/booleans through the traced binder; '
+             'synthetic signatures with <= 2 positional parameters',
+    'thorough': 'every definition the corpus can fill (166 of 176 explicit definitions on the pinned tree); symbolic-value '
+                'runs for the int/bool-only definitions; synthetic signatures with <= 3 positional parameters, <= 5 '
+                'arguments, <= 2 keywords'}
 OUTSIDE = ['no_kwargs functions (dict, set(dict,...), switch) and non-deterministic ones (now, random, localtz)',
            'names documented in doc-strings (isEmpty documents `trimSpaces`, the definition declares alias `trim`): the '
            'statement speaks of the convention-translated / declared names only, so the doc-string is not asserted',
@@ -51,9 +54,10 @@ ASSUMPTIONS = ['keyword name of a parameter = alias written in its @specs.parame
                'reference binder = Python binding rules on the signature without hidden parameters; an empty slot '
                'requires a default and stands for it',
                'engine options limitIterators=30, memoryQuota=500000 so that endless results end in the same error class']
-EXPLANATION = ('For each live definition the harness evaluates every spelling of one call on the real engine under '
-               'CrossHair with symbolic scalar arguments and proves, per path of the real binding + payload code, that '
-               'result or error class equal those of the all-positional spelling.  The synthetic catalogue drives '
+EXPLANATION = ('For each live definition every spelling of one call is rendered as YAQL text and evaluated by the real '
+               'engine (parser, translate_args, map_args, get_delegate, payload) for every solver-selected tuple of '
+               'corpus values; result or error class must equal those of the all-positional spelling.  For int/bool-only '
+               'definitions the values stay symbolic through the traced binder and payload.  The synthetic catalogue drives '
                'map_args/get_delegate with solver-chosen signature shapes (hidden parameter position, defaults, *args, '
                '**kwargs, keyword-only) and call shapes (argument count, empty slot, keyword subset) against a '
                'reference binder.')
@@ -294,8 +298,8 @@ def synth(ndef: int, has_var: bool, ko: int, has_varkw: bool, hidden: int, nargs
     """
     pre: 0 <= ndef <= NPOS and 0 <= ko < 3 and -1 <= hidden <= NPOS
     pre: 0 <= nargs <= NPOS + 2 and -1 <= skip < nargs
-    pre: -1 <= kw1 < len(KW_NAMES) and -1 <= kw2 < kw1
-    pre: mode_ok(ko, has_varkw, nargs, skip, kw1, kw2)
+    pre: -1 <= kw1 < len(KW_NAMES) and -1 <= kw2 and (kw2 < kw1 or kw1 == -1 == kw2)
+    pre: mode_ok(ko, has_varkw, nargs, skip, kw1, kw2) and (H.P('hidden') is None or hidden == H.P('hidden'))
     post: _
     """
     # all selectors are read here, once (each combination is one path); the call itself runs natively
@@ -408,9 +412,9 @@ def conditions(tier, seed):
                         'param': {'func': uid, 'only_f13': True, 'probe_key': F13},
                         'bounds': '%s with an empty slot in the *args region' % uid})
     for npos in ((0, 1, 2) if quick else (0, 1, 2, 3)):
-        for mode in ('pos', 'kw'):
-            out.append({'name': 'synth[npos=%d,%s]' % (npos, mode), 'func': 'synth', 'timeout': 900,
-                        'param': {'npos': npos, 'mode': mode},
+        for mode, hid in [('pos', None)] + ([('kw', None)] if npos < 2 else [('kw', h) for h in range(-1, npos + 1)]):
+            out.append({'name': 'synth[npos=%d,%s%s]' % (npos, mode, '' if hid is None else ',hidden=%d' % hid),
+                        'func': 'synth', 'timeout': 900, 'param': {'npos': npos, 'mode': mode, 'hidden': hid},
                         'bounds': 'synthetic signature: %d positional parameters, 0..%d trailing defaults, optional *args, '
                                   'hidden parameter at every position or absent; %s' % (npos, npos, (
                                       'call with 0..%d arguments, at most one empty slot at any position, optionally the '
